@@ -73,7 +73,12 @@ class CoreWalker(pathwalk.Walker):
             if b.get('v') == 0 or a.get('v') == 0:
                 st.events.append(('nonzero', truth == (c['op'] == '!='), fn.text(c['i'])))
             elif b.get('v') is not None:
-                st.events.append(('cmp', c['op'], b['v'], truth, fn.text(c['ch'][0])))
+                # normalised to an equality: ('cmp', '==', value, does-it-equal, text)
+                st.events.append(('cmp', '==', b['v'], truth == (c['op'] == '=='), fn.text(c['ch'][0])))
+        elif c['k'] == 'BinaryOperator' and c['op'] in ('<', '>', '<=', '>='):
+            b = fn.sn(c['ch'][1])
+            if b.get('v') is not None:
+                st.events.append(('rel', c['op'], b['v'], truth, fn.text(c['ch'][0])))
         elif c['k'] == 'DeclRefExpr' or c['k'] == 'ImplicitCastExpr':
             st.events.append(('nonzero', truth, fn.text(c['i'])))
 
@@ -349,13 +354,166 @@ def check_shared_walk(ctx, fb, rule):
                 if len(loops) > 1 and any(e in dec for e in ev[:ev.index(loops[-2]) + 1]):
                     ctx.report(rule, key, f.where, 'a reference is dropped before a callback that is not the last one')
                     break
-        # next link read before each Loop(this, head)
-        nodes = f.own_nodes()
-        ok = False
-        for n in nodes:
-            if n['k'] == 'WhileStmt':
-                cond_reads_next = any(f.nodes[d].get('mn') == 'next' for d in f.descendants(n['cond']))
-                ok = ok or cond_reads_next
-        if not ok:
-            ctx.report(rule, key, f.where, 'the list walk does not read the next link before running the callback '
-                       '(the callback may free its node)')
+        # next link read before each Loop(this, head): a read of ->next dominates every Loop call
+        cfg = f.cfg
+        reads = [n for n in f.own_nodes() if n['k'] == 'MemberExpr' and n.get('mn') == 'next' and cfg.pos_of(n['i'])]
+        loops_calls = [n for n in f.own_nodes() if n.get('cn') == 'yaclib::detail::Loop' and cfg.pos_of(n['i'])]
+        if not loops_calls:
+            ctx.broken('SetResultImpl<shared>: no Loop call found')
+        for lc in loops_calls:
+            if not any(cfg.dominates(cfg.pos_of(r['i']), cfg.pos_of(lc['i'])) for r in reads):
+                ctx.report(rule, key, f.loc(lc), 'a callback of the shared list is run before the node\'s next link '
+                           'was read (the callback may free its node)')
+                break
+
+# ------------------------------------------------------------------------------------------------ shared move-out
+def _moves_of_result(fn, ev):
+    """std::move(...) call events whose argument is a core's Get() (the stored Result)"""
+    out = []
+    for e in ev:
+        if e[0] == 'call' and e[1] == 'std::move':
+            n = fn.nodes[e[2]]
+            a = fn.sn(n['args'][0]) if n.get('args') else None
+            if a is not None and a.get('cn', '').endswith('::Get') and 'Core' in a.get('cn', ''):
+                out.append(e)
+    return out
+
+
+def check_moveout(ctx, fb, rule):
+    no_future = fb.vars.get('yaclib::detail::kSharedRefNoFuture', {}).get('v')
+    with_future = fb.vars.get('yaclib::detail::kSharedRefWithFuture', {}).get('v')
+    if no_future is None or with_future is None:
+        ctx.broken('kSharedRef* constants not found')
+    key = 'R-MOVEOUT constants'
+    ctx.instance(rule, key, dict(kSharedRefNoFuture=no_future, kSharedRefWithFuture=with_future))
+    if with_future != no_future + 1:
+        ctx.report(rule, key, 'include/yaclib/algo/detail/shared_core.hpp:1', 'kSharedRefWithFuture must be '
+                   'kSharedRefNoFuture + 1 (one reference for the SharedFuture handle)')
+    n = 0
+    for f in fb.fn.values():
+        if f.cfg is None:
+            continue
+        handle = f.qn in ('yaclib::SharedFutureBase::Get', 'yaclib::SharedFutureBase::Touch') and \
+            'const' not in f.flags and not f.ret.startswith('const')
+        retire = f.qn == 'yaclib::detail::SharedCore::Retire'
+        if not (handle or retire):
+            continue
+        n += 1
+        key = 'R-MOVEOUT ' + f.qn
+        res = CoreWalker(fb).run(f)
+        ctx.instance(rule, key + ' :: ' + f.cls[:100], dict(function=f.full[:160], paths=len(res)))
+        for st, _ in res:
+            ev = st.events
+            for m in _moves_of_result(f, ev):
+                i = ev.index(m)
+                guard = [e for e in ev[:i] if e[0] == 'cmp' and e[1] == '==' and e[2] == 1 and e[3] is True and
+                         'GetRef' in e[4]]
+                if not guard:
+                    ctx.report(rule, key, m[3], 'the shared value is moved out on a path that did not establish '
+                               'GetRef() == 1 (this handle is provably the last observer): another observer reads a '
+                               'moved-from value', 'function: ' + f.full[:300])
+                    break
+            else:
+                continue
+            break
+    # ResultCore::Impl (copyable): copy when ref >= kSharedRefNoFuture, DecRef only when ref == 1
+    for f in fb.by_qn('yaclib::detail::ResultCore::Impl'):
+        if f.cfg is None:
+            continue
+        res = CoreWalker(fb).run(f)
+        if not any(e[0] == 'rel' for st, _ in res for e in st.events):
+            continue  # move-only instantiation: only unique cores reach it
+        n += 1
+        key = 'R-MOVEOUT ' + f.qn
+        ctx.instance(rule, key + ' :: ' + f.cls[:100] + '<%s>' % ','.join(f.fta), None)
+        for st, _ in res:
+            ev = st.events
+            rel = [e for e in ev if e[0] == 'rel']
+            if rel and (rel[0][1] != '>=' or rel[0][2] != no_future):
+                ctx.report(rule, key, f.where, 'the copy/move threshold is "%s %d"; it must be ">= kSharedRefNoFuture '
+                           '(%d)": with fewer references this continuation is the last observer' % (
+                               rel[0][1], rel[0][2], no_future))
+                break
+            moves = _moves_of_result(f, ev)
+            if moves and rel and rel[0][3] is True:
+                ctx.report(rule, key, moves[0][3], 'the value is moved although other observers may still exist '
+                           '(ref >= %d)' % no_future)
+                break
+            dec = [e for e in ev if e[0] == 'call' and e[1].endswith('::DecRef')]
+            if dec and rel:
+                i = ev.index(dec[0])
+                if not any(e[0] == 'cmp' and e[1] == '==' and e[2] == 1 and e[3] is True for e in ev[:i]):
+                    ctx.report(rule, key, dec[0][3], 'the predecessor is released although it is a shared core still '
+                               'owned by its promise/futures (ref != 1)')
+                    break
+    return n
+
+
+def check_const_observers(ctx, fb, rule):
+    n = 0
+    for f in fb.fn.values():
+        if f.qn in ('yaclib::SharedFutureBase::Get', 'yaclib::SharedFutureBase::Touch') and 'const' in f.flags:
+            n += 1
+            key = 'R-CONSTOBS %s const&' % f.qn
+            ctx.instance(rule, key + ' :: ' + f.cls[:100], None)
+            for c in f.calls():
+                if c['cn'] in ('std::move',) or c['k'] == 'CXXConstCastExpr':
+                    ctx.report(rule, key, f.loc(c), 'a const observer of a SharedFuture moves from the shared value')
+            if any(x['k'] == 'CXXConstCastExpr' for x in f.own_nodes()):
+                ctx.report(rule, key, f.where, 'a const observer casts constness away')
+    # continuations attached to a shared core read it as const
+    for f in fb.fn.values():
+        if f.clsq != 'yaclib::detail::Core' or f.cfg is None:
+            continue
+        try:
+            bits = int(f.cta[4])
+        except (ValueError, IndexError):
+            continue
+        from_shared = bool(bits & 8)
+        async_shared = f.cta[5].endswith('Shared') if len(f.cta) > 5 else False
+        if f.n in ('Call', 'Impl') and 'lambda' not in f.flags and from_shared:
+            for c in f.own_nodes():
+                if c.get('cn') == 'yaclib::detail::ResultCore::MoveOrConst':
+                    n += 1
+                    key = 'R-CONSTOBS Core<FromShared>::%s' % f.n
+                    ctx.instance(rule, key + ' :: ' + f.cls[:100], None)
+                    if (c.get('cta') or ['?'])[0] not in ('false', '0'):
+                        ctx.report(rule, key, f.loc(c), 'a continuation attached to a SharedFuture moves the shared '
+                                   'value out of the core (other observers then read a moved-from value)',
+                                   'instantiation: ' + f.full[:300])
+        if 'lambda' in f.flags and async_shared:
+            pass
+    for f in fb.fn.values():
+        if 'lambda' in f.flags and f.qn.startswith('yaclib::detail::Core::Impl') and f.cfg is not None:
+            # async_done: the inner result of a step that returned a SharedFuture is read as const
+            parent = fb.fn.get(f.parent)
+            if parent is None or len(parent.cta) < 6 or not parent.cta[5].endswith('Shared'):
+                continue
+            for c in f.own_nodes():
+                if c.get('cn') == 'yaclib::detail::ResultCore::MoveOrConst':
+                    n += 1
+                    key = 'R-CONSTOBS Core<AsyncShared>::async_done'
+                    ctx.instance(rule, key + ' :: ' + parent.cls[:100], None)
+                    if (c.get('cta') or ['?'])[0] not in ('false', '0'):
+                        ctx.report(rule, key, f.loc(c), 'the result of an inner SharedFuture is moved out although '
+                                   'other observers of that SharedFuture may exist')
+    return n
+
+
+def check_shared_factories(ctx, fb, rule):
+    """initial reference counts of shared cores"""
+    want = {'yaclib::MakeSharedContract': 'kSharedRefWithFuture', 'yaclib::MakeSharedPromise': 'kSharedRefNoFuture',
+            'yaclib::detail::RunShared': 'kSharedRefWithFuture', 'yaclib::detail::MakeCore': 'kSharedRefWithFuture'}
+    n = 0
+    for f in fb.fn.values():
+        if f.qn not in want:
+            continue
+        for c in f.calls(r'^yaclib::MakeShared$'):
+            n += 1
+            key = 'R-MOVEOUT initial count in ' + f.qn
+            ctx.instance(rule, key + ' :: ' + f.full[:100], None)
+            a = f.sn(c['args'][0])
+            if not a.get('dn', '').endswith(want[f.qn]):
+                ctx.report(rule, key, f.loc(c), 'a shared core is created with %s references; %s expects %s' % (
+                    f.text(c['args'][0]), f.qn, want[f.qn]))
+    return n
